@@ -632,6 +632,33 @@ def rule_arg_mutation(ctx, prefix, fi, reached_from=""):
               key="arg-mutation", where=loc(fi, bad[0][0]) if bad else None)
 
 
+def rule_P3_full_state(ctx, prefix, prog, rel="amr_kitchen/chef/chef.py", setter="Chef.set_global_sarrays"):
+    """the Cantera placeholder arrays are module state that every task of a process re-uses; a task is a function of
+    its own box only if it sets the *complete* thermodynamic state (T, P, Y) before reading properties.  A `None`
+    component in a state setter means "keep what is there" — i.e. what the previous task of that process left."""
+    m = prog.module(rel)
+    bad = []
+    fi = m.functions.get(setter)
+    if fi is not None:
+        for n in walk_no_nested(fi.node):
+            if isinstance(n, ast.Assign) and isinstance(n.targets[0], ast.Subscript) and \
+                    norm(n.targets[0].value) == "PRESSURES" and isinstance(n.value, ast.Constant) and n.value.value is None:
+                bad.append((fi, n, f"`{norm(n)}`: the knives then set `sarray.TPY = T, None, Y`, and Cantera keeps the "
+                                   f"pressure of whatever state the previous box left in that process's placeholder array"))
+    for f in m.functions.values():
+        for n in walk_no_nested(f.node):
+            if isinstance(n, ast.Assign) and isinstance(n.targets[0], ast.Attribute) and \
+                    n.targets[0].attr in ("TPY", "TPX", "TP", "TD", "TDY", "HP", "HPY", "SP", "UV") and \
+                    isinstance(n.value, ast.Tuple) and any(isinstance(e, ast.Constant) and e.value is None for e in n.value.elts) \
+                    and norm(n.targets[0].value) not in ("self.gas",):
+                bad.append((f, n, f"`{norm(n)[:60]}` leaves a state component as it was in the shared placeholder array"))
+    ctx.check(not bad, f"{prefix}.P3-GLOBALS", (bad[0][0].site if bad else (fi.site if fi else rel)),
+              "every task sets the complete thermodynamic state (T, P, Y) of the shared Cantera placeholder array",
+              (bad[0][2] if bad else "") + ": the output bits of a box then depend on which boxes the same process "
+              "cooked before it (serial vs parallel, worker count, task placement)", key="full-state",
+              where=loc(bad[0][0], bad[0][1]) if bad else None, semantic=True)
+
+
 def rule_P3_module_ref(ctx, prefix, prog, modules):
     """code shipped to a *persistent* pool by reference: a dynamically loaded module registered in sys.modules under a
     fixed name makes its functions pickle by reference, so cached pathos workers keep resolving the first module"""
